@@ -36,7 +36,14 @@ func (m *MemFile) Read(p []byte) (int, error) {
 	return n, nil
 }
 
+// MaxSize bounds the in-memory file: a write ending beyond it fails (a broken allocator or a garbage header
+// word would otherwise make the harness allocate tens of GiB of zeros).
+const MaxSize = 1 << 27
+
 func (m *MemFile) Write(p []byte) (int, error) {
+	if m.pos+int64(len(p)) > MaxSize {
+		return 0, errors.New("verif: write beyond the 128 MiB bound of the in-memory file")
+	}
 	m.Log = append(m.Log, Write{m.pos, append([]byte{}, p...)})
 	ApplyWrite(&m.B, m.pos, p)
 	m.pos += int64(len(p))
